@@ -7,6 +7,11 @@ use vcoll::vvec::VVec as Vec;
 use vcoll::BTreeMap;
 
 use crate::env::*;
+// timers are immediately ready in the de-sugared text (retry / back-off loops a change may introduce must still compile)
+#[allow(unused_imports)]
+use std::time::Duration;
+#[allow(dead_code)]
+fn sleep(_d: Duration) {}
 
 #[allow(unused_macros)]
 macro_rules! info {
